@@ -18,6 +18,7 @@ import FlatccModel.Builder
 import FlatccModel.Alloc
 import FlatccModel.StructGraph
 import FlatccModel.Clone
+import FlatccModel.Props.C12_Iov
 /-! `fmodel`: executes the model's definitions on protocol lines (stdin → stdout, one result line per op line). -/
 open Flatcc Flatcc.Util
 
@@ -527,6 +528,27 @@ def cloneOp (args : List String) : String :=
     | none => "fail"
   | _ => "bad-op"
 
+/-- iov <fill> <clustering 0/1> <kind> <args..>: the pieces (`iov` entries) of the emit call one `create_*` call makes when `fill`
+bytes were emitted at the front before (Props/C12_Iov.lean); printed as F|B <len> : piece lengths -/
+def iovOp (args : List String) : String :=
+  open Flatcc.Builder in
+  match args with
+  | fill :: cl :: kind :: rest =>
+    let s0 : BS := { initBS with clustering := cl == "1" }
+    let (s, r0) := if fill.toNat! = 0 then (s0, (0 : Int)) else createStruct s0 (zeros fill.toNat!) 1
+    let pr (tag : String) (ps : List (List Nat)) : String :=
+      s!"ok {tag}{(ps.map List.length).foldl (· + ·) 0}:{"+".intercalate (ps.map (fun p => toString p.length))}"
+    match kind, rest with
+    | "str", [hex] => pr "F" (stringIov s (hexToBytes hex))
+    | "vec", [esz, al, hex] =>
+      let d := hexToBytes hex
+      pr "F" (vectorIov s d (if esz.toNat! = 0 then 0 else d.length / esz.toNat!) al.toNat!)
+    | "ovec", [cnt] => pr "F" (offsetVectorIov s (List.replicate cnt.toNat! r0))
+    | "struct", [al, hex] => pr "F" (structIov s (hexToBytes hex) al.toNat!)
+    | "vt", [hex] => pr (if s.nestId = 0 ∧ s.clustering then "B" else "F") (vtableIov s (hexToBytes hex))
+    | _, _ => "bad-op"
+  | _ => "bad-op"
+
 def allocOp (args : List String) : String :=
   match args with
   | [hint, len0, reqs] =>
@@ -662,6 +684,7 @@ def step (line : String) : String :=
   | "alloc" :: args => allocOp args
   | "vtcache" :: args => vtcacheOp args
   | "clone" :: args => cloneOp args
+  | "iov" :: args => iovOp args
   | "sgraph" :: args => sgraphOp args
   | "refmap" :: args => refmapOp args
   | "ident" :: args => identOp args
